@@ -130,19 +130,21 @@ template <class PT> void run_cloud(vf::Ctx& c, const char* tname, const Cloud& c
 
 const char* kTypes[] = {"Vector2d", "Vector2f", "Homogeneous2d", "Homogeneous2f", "Vector3d", "Vector3f", "Homogeneous3d", "Homogeneous3f"};
 const size_t kK[] = {3, 5, 10, 20, 30};
+std::vector<size_t> ks(bool th) { if (!th) return std::vector<size_t>(kK, kK + 5); std::vector<size_t> v; for (size_t k = 3; k <= 30; ++k) v.push_back(k); return v; }
 std::vector<Cloud> g2, g3;
 
 }  // namespace
 
 // case = type(8) x cloud x k(5) ; rotations and output initialisation inside
-uint64_t vf_ncases(const std::string& tier) { if (g2.empty()) { g2 = clouds2(false); g3 = clouds3(false); } return 4 * g2.size() * 5 + 4 * g3.size() * 5; }
+uint64_t vf_ncases(const std::string& tier) { if (g2.empty()) { g2 = clouds2(false); g3 = clouds3(false); } size_t nk = ks(tier == "thorough").size(); return 4 * g2.size() * nk + 4 * g3.size() * nk; }
 
 void vf_run(uint64_t idx, const std::string& tier, vf::Ctx& c) {
   if (g2.empty()) { g2 = clouds2(false); g3 = clouds3(false); }
-  uint64_t n2 = 4 * g2.size() * 5;
+  auto K = ks(tier == "thorough"); size_t nk = K.size();
+  uint64_t n2 = 4 * g2.size() * nk;
   bool is3 = idx >= n2; uint64_t r = is3 ? idx - n2 : idx;
   const auto& cl = is3 ? g3 : g2;
-  int t = r / (cl.size() * 5); size_t ci = (r / 5) % cl.size(); size_t k = kK[r % 5];
+  int t = r / (cl.size() * nk); size_t ci = (r / nk) % cl.size(); size_t k = K[r % nk];
   // small cloud variant: exactly k+1 points (first k+1 points of a planar patch) for the first cloud
   for (int rot = 0; rot < 4; ++rot) for (int init = 0; init < 2; ++init) {
     if (tier != "thorough" && rot && init) continue;
@@ -160,7 +162,7 @@ void vf_run(uint64_t idx, const std::string& tier, vf::Ctx& c) {
 std::string vf_describe(const std::string& tier) {
   if (g2.empty()) { g2 = clouds2(false); g3 = clouds3(false); }
   vf::JO o; std::vector<std::string> n2, n3; for (auto& c : g2) n2.push_back(c.name); for (auto& c : g3) n3.push_back(c.name);
-  o.strs("clouds_2d", n2).strs("clouds_3d", n3).vec("k", std::vector<size_t>(kK, kK + 5));
+  o.strs("clouds_2d", n2).strs("clouds_3d", n3).vec("k", ks(tier == "thorough"));
   o.str("rotations", "identity, Rz(0.3), Rx(1.1)Ry(-0.7) (2D: R(-2.0)), Rz(pi)");
   o.str("output_normals", "zero-initialised and default-constructed (homogeneous coordinate 1; Cartesian: constant 0.5)");
   o.str("overloads", "all six compute overloads, compared bitwise");
